@@ -62,7 +62,11 @@ var (
 	iSN   = u.F("iSN", "{{A*g~};B}", "")
 	iSH   = u.F("iSH", "{A*h~;A*g~;C}", "")
 	iSpos = u.F("iSpos", "{A*g~},B", "")
-	pCs   = u.F("pCs", "{A*g~}", "C") // constructor with a soft dependency
+	pCs   = u.F("pCs", "{A*g~}", "C")          // constructor with a soft dependency
+	iSN2  = u.F("iSN2", "{A*g~;{A*h~;B}}", "") // soft group before a nested object that has a soft group and needs B
+	iSN3  = u.F("iSN3", "{A*g~;{B}}", "")
+	iSN4  = u.F("iSN4", "{{A*h~;B};A*g~}", "")
+	pCsn  = u.F("pCsn", "{A*g~;{A*h~;B}}", "C") // the same shape as a constructor's parameters
 )
 
 func init() {
@@ -373,6 +377,8 @@ func c11Units(tier string) []Unit {
 		invokes: []*uFunc{iS1, iS2, iSN, iSpos, iGs, iG, iB, iC}}, d, b)
 	add("field-orders-3", h.Config{}, nil, nil, alpha{scopes: []int{0}, ctors: []*uFunc{pMB, pMC, pMBC, fG1},
 		invokes: []*uFunc{iS3a, iS3b, iS3c, iSH, iGs, iB}}, d, b)
+	add("nested-objects", h.Config{}, nil, nil, alpha{scopes: []int{0}, ctors: []*uFunc{pMB, pMC, fG1, pCsn},
+		invokes: []*uFunc{iSN, iSN2, iSN3, iSN4, iC, iGs}}, d, b)
 	add("two-groups-scoped", h.Config{}, nil, prefixChild, alpha{scopes: []int{0, 1}, ctors: []*uFunc{pMB, pMC, fH}, export: true,
 		invokes: []*uFunc{iSH, iS1, iGH, iC}}, d, b)
 	if !q {
